@@ -288,6 +288,11 @@ def make_plane(ctx, lentil, rng, shape, wl, cls=None, pixelscale=None, force=Non
         kw['mask'] = segs.astype(float)
     if cls is lentil.Pupil:
         kw['focal_length'] = float(rng.uniform(0.5, 20))
+    # arrays in any memory layout (Fortran order, strided views): same values, same plane
+    if 'mask' in kw:
+        kw['mask'] = gen.layout(rng, kw['mask'], 0.2)
+    amp = gen.layout(rng, amp, 0.2) if isinstance(amp, np.ndarray) else amp
+    opd = gen.layout(rng, opd, 0.2) if isinstance(opd, np.ndarray) else opd
     plane = cls(amplitude=amp, opd=opd, pixelscale=pixelscale, **kw)
     return plane, {'amp': ak, 'opd': ok, 'mask': mk}
 
